@@ -207,8 +207,11 @@ RfcReadClauses(r) ==
           ELSE LET exact == Inst(u.dn, u.sod, u.ns)
                    up == Shift(exact, FromInt(1), 1)
                    got == Inst(r.r.dn, r.r.sod, r.r.ns)
-               IN IF r.r.off = q.off /\ (got = exact \/ (CutOff(q.frac) /\ up.k = "ok" /\ got = up.inst))
-                  THEN {} ELSE {"C13.read_value"}
+               IN (IF r.r.off = q.off /\ (got = exact \/ (CutOff(q.frac) /\ up.k = "ok" /\ got = up.inst))
+                   THEN {} ELSE {"C13.read_value"})
+                  \* the value read is the canonical representation of that instant (every further reading of it
+                  \* equals the reading of a value built from timestamp, nanosecond and offset)
+                  \cup (IF r.r.eqc THEN {} ELSE {"C13.read_value_not_canonical"})
 
 (***************************************************************************)
 (* C20                                                                     *)
